@@ -72,13 +72,13 @@ class EngineC13(EngineC14):
             if kind == "stmt":
                 log.add("stmt", "ok")
                 continue
-            name = op["name"] if kind in ("insn", "loaded_insn") else None
+            name = op["name"] if kind in ("insn", "loaded_insn", "compile_parsed") else None
             if kind == "loaded_insn":
                 parts = o.get("loaded_parts") or []
             elif kind == "fresh2":
                 parts = list(op["codes"])
             else:
-                parts = op["parts"] if kind == "insn" else [op["code"]]
+                parts = op["parts"] if kind in ("insn", "compile_parsed") else [op["code"]]
             if len(o["parts"]) != len(parts):
                 V.append(Violation("C13", "text-model", "part-count", "", {"got": len(o["parts"]), "want": len(parts)}, step))
                 continue
